@@ -2,7 +2,12 @@
 
 package actionlint
 
-import "gopkg.in/yaml.v3"
+import (
+	"os"
+	"time"
+
+	"gopkg.in/yaml.v3"
+)
 
 // HarnessC10Echo: like C16's echo harness, but what is checked is that linting
 // a file with arbitrary user text at any scalar position never writes to memory
@@ -288,4 +293,60 @@ func verifIsLine(e *Error, doc *yaml.Node, job string) bool {
 		}
 	}
 	return false
+}
+
+type verifFileInfo struct{ dir bool }
+
+func (verifFileInfo) Name() string       { return "" }
+func (verifFileInfo) Size() int64        { return 0 }
+func (verifFileInfo) Mode() os.FileMode  { return 0 }
+func (verifFileInfo) ModTime() time.Time { return time.Time{} }
+func (f verifFileInfo) IsDir() bool      { return f.dir }
+func (verifFileInfo) Sys() any           { return nil }
+
+// kinds of a file-system entry: 0 absent, 1 directory, 2 regular file
+var verifC10Tree map[string]int
+
+func verifC10StatTree(name string) (os.FileInfo, error) {
+	switch verifC10Tree[name] {
+	case 1:
+		return verifFileInfo{dir: true}, nil
+	case 2:
+		return verifFileInfo{}, nil
+	}
+	return nil, &verifC10Err{"no such file " + name}
+}
+
+// HarnessC10FindProject: which repository a file belongs to. Two nested
+// directories /r and /r/sub, each with `.git` and `.github/workflows` absent,
+// a directory or a regular file (81 layouts; `.git` is a file in worktrees and
+// submodules). The project of /r/sub/.github/workflows/w.yml is the nearest
+// ancestor that has a `.github/workflows` directory and a `.git` entry of
+// either kind.
+func HarnessC10FindProject() {
+	gs, ws, gr, wr := verifChoose("sub.git", 3), verifChoose("sub.workflows", 3), verifChoose("r.git", 3), verifChoose("r.workflows", 3)
+	want := ""
+	switch {
+	case ws == 1 && gs != 0:
+		want = "/r/sub"
+	case wr == 1 && gr != 0:
+		want = "/r"
+	}
+	if verifIsNative() {
+		verifC10NativeFindProject(gs, ws, gr, wr, want)
+		return
+	}
+	verifC10Tree = map[string]int{"/r/sub/.git": gs, "/r/sub/.github/workflows": ws, "/r/.git": gr, "/r/.github/workflows": wr}
+	verifC10Cfg = map[string]*Config{}
+	verifSetCwd("/")
+	verifOverride("os.Stat", verifC10StatTree)
+	verifOverride("loadRepoConfig", verifC10RepoConfig)
+	p, err := findProject("/r/sub/.github/workflows/w.yml")
+	verifReach("found")
+	verifCheck(err == nil, "find-project-failed")
+	got := ""
+	if p != nil {
+		got = p.RootDir()
+	}
+	verifCheckf(got == want, "file-assigned-to-the-wrong-repository", got+" <> "+want)
 }
